@@ -100,10 +100,10 @@ def per_task(bus, uids):
     return out
 
 
-def monitor(rp, plans, bus, uids, rng):
+def monitor(rp, plans, bus, uids, rng, nshuffle=2):
     bad = []
     n = len(bus.updates)
-    orders = [None] + [rng.sample(range(n), n) for _ in range(2)]
+    orders = [None] + [rng.sample(range(n), n) for _ in range(nshuffle)]
     pilots = {u: 'pilot.%04d' % p.get('pilot', 0) for p, u in zip(plans, uids)}
     for oi, order in enumerate(orders + [None]):
         # last round: the tasks are bound to their pilots; another pilot of the same manager (none of these tasks runs
@@ -130,6 +130,9 @@ def monitor(rp, plans, bus, uids, rng):
             staged = exited and (ex == 0 or p['on_error']) or (reached and ex in ('canceled', 'timeout') and p['on_error'])
             stage_fault = staged and (p['agent_out'] or p['tmgr_out'])
             fault = p['tmgr_in'] or p['agent_in'] or (reached and ex in ('no_launcher', 'launch_error')) or stage_fault
+            if v['state'] == 'DONE' and v['exit_code'] != 0:
+                # (whatever the order of delivery: the notification of the final state carries the whole task)
+                bad.append(('task:DONE-without-exit-code-0-recorded', '%s: exit_code %r, plan %s (%s)' % (u, v['exit_code'], p, tag)))
             if v['state'] == 'DONE' and not (exited and ex == 0 and not fault):
                 bad.append(('task:DONE-without-exit-0-and-complete-staging', '%s plan %s (%s)' % (u, p, tag)))
             if v['state'] == 'CANCELED' and not (reached and ex in ('canceled', 'timeout')):
@@ -137,8 +140,8 @@ def monitor(rp, plans, bus, uids, rng):
             if v['state'] == 'FAILED':
                 if not (fault or (exited and ex != 0)):
                     bad.append(('task:FAILED-without-cause', '%s plan %s (%s)' % (u, p, tag)))
-                if order is None and v['exit_code'] in (None, 0) and not v['exception']:
-                    bad.append(('task:FAILED-without-exit-code-or-exception', '%s: exit_code %r, exception %r, plan %s' % (u, v['exit_code'], v['exception'], p)))
+                if v['exit_code'] in (None, 0) and not v['exception']:
+                    bad.append(('task:FAILED-without-exit-code-or-exception', '%s: exit_code %r, exception %r, plan %s (%s)' % (u, v['exit_code'], v['exception'], p, tag)))
             if exited and ex == 0 and not fault and v['state'] != 'DONE':
                 bad.append(('task:clean-run-not-DONE', '%s ends %s, plan %s (%s)' % (u, v['state'], p, tag)))
             if (fault or (exited and ex != 0)) and v['state'] != 'FAILED':
@@ -551,7 +554,8 @@ def replay(ctx, data):
         return bad is None
     if i['kind'] == 'bulk':
         bus, uids = run_bulk(rp, i['plans'])
-        bad = monitor(rp, i['plans'], bus, uids, ctx.rng)
+        import random
+        bad = monitor(rp, i['plans'], bus, uids, random.Random(0), nshuffle=40)     # (the same orders at every replay)
         print(per_task(bus, uids)); print(bad)
         return not bad
     per, survived = run_work_cb(rp, i['n'], i['raise_at'], i.get('marks'))
